@@ -161,7 +161,8 @@ class FormLimits(Scenario):
         mcl = rng.choice([None, None, 0, 20, max(0, n - 1), n, n + 1, 10 * n + 100])
         if mfms is not None and rng.random() < 0.3:
             mfms = rng.choice([max(0, facts["max_field"] - 1), facts["max_field"], facts["max_field"] + 1])
-        framing = rng.choice(["declared", "declared", "terminated", "terminated_declared", "chunked_terminated", "none"])
+        # "terminated_empty_cl": CONTENT_LENGTH present but empty, which PEP 3333 allows for "no length"
+        framing = rng.choice(["declared", "declared", "terminated", "terminated", "terminated_declared", "chunked_terminated", "none", "terminated_empty_cl"])
         faults = rng.random() < 0.15
         if body.get("type") == "multipart" and n > 2 and rng.random() < 0.12:
             case["cut"] = rng.choice([rng.randrange(1, n), rng.randrange(max(1, n - 60), n), rng.randrange(max(1, n * 2 // 3), n)])
@@ -173,7 +174,7 @@ class FormLimits(Scenario):
                 "mfms": mfms,
                 "mfp": mfp,
                 "mcl": mcl,
-                "entry": rng.choice(["parser", "formdata", "formdata_loud", "request"]),
+                "entry": rng.choice(["parser", "formdata", "formdata_loud", "request", "formdata_parse"]),
                 "framing": framing,
                 "bufsize": rng.choice([1, 7, 64, 1024, 65536]),
                 "tape": [] if rng.random() < 0.3 else [rng.choice([0, 0, 1, 3, 17, 100, 1000]) for _ in range(80)],
@@ -198,7 +199,7 @@ class FormLimits(Scenario):
         entry = case.get("entry", "formdata")
         data = body
         trunc = case.get("truncate")
-        uses_limited = framing == "declared" or (framing in ("terminated", "terminated_declared", "chunked_terminated") and mcl is not None)
+        uses_limited = framing == "declared" or (framing in ("terminated", "terminated_declared", "chunked_terminated", "terminated_empty_cl") and mcl is not None and entry != "formdata_parse")
         fail_at = []
         if with_faults and uses_limited:
             if isinstance(trunc, int) and framing in ("declared",):
@@ -220,8 +221,10 @@ class FormLimits(Scenario):
         }
         if framing in ("declared", "terminated_declared"):
             environ["CONTENT_LENGTH"] = str(len(body))
-        if framing in ("terminated", "terminated_declared", "chunked_terminated"):
+        if framing in ("terminated", "terminated_declared", "chunked_terminated", "terminated_empty_cl"):
             environ["wsgi.input_terminated"] = True
+        if framing == "terminated_empty_cl":
+            environ["CONTENT_LENGTH"] = ""
         if framing == "chunked_terminated":
             environ["HTTP_TRANSFER_ENCODING"] = "chunked"
         _Spy.max_buffer = _Spy.max_event = _Spy.calls = 0
@@ -240,6 +243,15 @@ class FormLimits(Scenario):
                     form, files = parser.parse(stream, opts.get("boundary", "").encode("ascii"), get_content_length(environ))
                 else:
                     _, form, files = fp.FormDataParser(max_form_memory_size=mfms, max_form_parts=mfp, silent=False).parse(stream, mimetype, get_content_length(environ), opts)
+            elif entry == "formdata_parse":
+                # the parser's own parse(): the limits given to the constructor apply, the caller supplies stream and length
+                from werkzeug.http import parse_options_header
+                from werkzeug.wsgi import get_content_length
+                from werkzeug.wsgi import get_input_stream
+
+                mimetype, opts = parse_options_header(ctype)
+                p = fp.FormDataParser(max_form_memory_size=mfms, max_content_length=mcl, max_form_parts=mfp, silent=False)
+                _, form, files = p.parse(get_input_stream(environ), mimetype, get_content_length(environ), opts)
             elif entry in ("formdata", "formdata_loud"):
                 p = fp.FormDataParser(max_form_memory_size=mfms, max_content_length=mcl, max_form_parts=mfp, silent=entry == "formdata")
                 _, form, files = p.parse_from_environ(environ)
@@ -291,7 +303,8 @@ class FormLimits(Scenario):
         # ---- monitors --------------------------------------------------
         if mfms is not None and spy[0] > mfms:
             out.violate(f"{pre}/decoder-buffer-over-limit/{tag}", f"decoder buffer reached {spy[0]} bytes with max_form_memory_size={mfms}")
-        if mcl is not None and framing in ("terminated", "chunked_terminated") and lsim.pos > mcl:
+        # (FormDataParser.parse() is handed a stream by its caller: only a declared length can be held against the maximum there)
+        if mcl is not None and framing in ("terminated", "chunked_terminated", "terminated_empty_cl") and lsim.pos > mcl and entry != "formdata_parse":
             out.violate(f"{pre}/stream-read-past-max-content-length/{tag}", f"{lsim.pos} bytes taken from a server-terminated stream, max_content_length={mcl}")
         if declared is not None and mcl is not None and declared > mcl and lsim.calls > 0:
             out.violate(f"{pre}/body-read-despite-declared-length-over-maximum/{tag}", f"declared {declared} > max_content_length {mcl} but {lsim.pos} bytes were read")
@@ -314,7 +327,7 @@ class FormLimits(Scenario):
             out.violate(f"{pre}/endless-read/{tag}", L[1])
         elif L[0] == "exc":
             same_as_unlimited = U[0] == "exc" and U[1] == L[1]
-            if not (L[1] == "ValueError" and entry in ("parser", "formdata_loud") and same_as_unlimited):
+            if not (L[1] == "ValueError" and entry in ("parser", "formdata_loud", "formdata_parse") and same_as_unlimited):
                 out.violate(f"{pre}/unexpected-exception/{L[1]}/{tag}", f"{L[1]}: {L[2]} (unlimited parse: {U[:2]})")
         elif L[0] == "http":
             if L[1] == "RequestEntityTooLarge":
